@@ -361,7 +361,13 @@ Definition processAKE_body (now : N) (ty : N) (body : option akebody) (aux : N) 
   let st := a_state (the_ake c) in
   if ty =? c_msgTypeDHCommit then
     match st with
-    | 0 | 3 =>
+    | 3 =>
+        (* awaiting the Signature message: a commit that cannot be read changes nothing *)
+        match body with
+        | Some b => LET r <- receiveDHCommit_none b IN ret (fst r, [], snd r)
+        | None => ret (None, [], 1)
+        end
+    | 0 =>
         match body with
         | Some b => LET r <- receiveDHCommit_none b IN ret (fst r, [], snd r)
         | None =>
@@ -371,9 +377,10 @@ Definition processAKE_body (now : N) (ty : N) (body : option akebody) (aux : N) 
             LET _ <- wrap (EAke (BKey y)) IN ret (None, [], 1)
         end
     | 2 =>
-        set_ake (fun a => (a <| a_keys := keyctx_wipeAndKeepRevealKeys (a_keys a) |> <| a_encGx := None |> <| a_hashGx := None |>)) ;;;
+        (* a commit that cannot be read leaves the stored one alone *)
         match body with
         | Some (BCommit r gx h) =>
+            set_ake (fun a => (a <| a_keys := keyctx_wipeAndKeepRevealKeys (a_keys a) |> <| a_encGx := None |> <| a_hashGx := None |>)) ;;;
             set_ake (fun a => (a <| a_encGx := Some (r, gx) |> <| a_hashGx := Some h |>)) ;;;
             LET c <- get IN
             LET w <- wrap (EAke (BKey (match a_exp (the_ake c) with Some e => e | None => 0 end))) IN
@@ -660,6 +667,10 @@ Definition forgetVersion (before : N) (err : N) : M unit :=
   else if negb (err =? 0) || (match c_ake c with Some a => a_state a =? 0 | None => true end)
   then modify (fun c => c <| c_version := 0 |>) else ret tt.
 
+(* a message that ends up rejected does not bind the conversation to the instance it claims to come from *)
+Definition forgetTag (before : N) (err : N) : M unit :=
+  if (before =? 0) && negb (err =? 0) then modify (fun c => c <| c_theirTag := 0 |>) else ret tt.
+
 Definition finish (plain : option bytes) (out : list wire) (err : N) : M result :=
   (* toSendEncoded drops the output when there is an error; injections are always flushed *)
   LET out' <- withInjects (if err =? 0 then out else []) IN
@@ -703,7 +714,7 @@ Definition receive (now : N) (w : wire) (aux : N) (rnd : list N) : M result :=
         LET c0 <- get IN
         LET r <- receiveDecoded now ver stag rtag body aux rnd IN
         let '(plain, out, err) := r in
-        forgetVersion (c_version c0) err ;;; finish plain out err
+        forgetVersion (c_version c0) err ;;; forgetTag (c_theirTag c0) err ;;; finish plain out err
     end.
 
 (* ---------------- Send (send.go) ---------------- *)
